@@ -7,6 +7,7 @@ from pyvc.values import FA, mark
 
 from pyvc.contract import Contract, ExcCase, LoopSpec, contract, A, same_value, havoc_location, At
 from pyvc.interp import CallArgs, StarSeq, attr_fn, TMATCH
+from pyvc.values import Unsupported
 from pyvc.state import SymMap, SymSet, SymSeq
 from pyvc.values import (PyV, NONE, TRUE, FALSE, SymV, SymB, SymI, SymS, Ref, lift, lower, as_z3, subcls, LATTICE,
                          mk_str, mk_int, truthy_term, IntS, BoolS, z3_and, z3_or, z3_not)
@@ -867,10 +868,15 @@ class M_run_node(CoroBase):
         out.append(('never-stores-a-result-for-a-synthetic-switch-node (INV1)', z3.Not(self.mv(pre, a).G.is_switch(n))))
         if rec_path:
             r0 = sp[0]
-            out.append(('re-iteration-is-_run_recurrent_subgraph-for-this-node-and-result|C11',
-                        len(sp) == 1 and r0.fn.endswith('_run_recurrent_subgraph') and z3.simplify(z3.And(
-                            T(r0.kwargs.get('node_id'), st) == n, T(r0.kwargs.get('node_result'), st) == res))
-                        and (r0.kwargs.get('dag') is a.dag)))
+            ok_rec = len(sp) == 1 and r0.fn.endswith('_run_recurrent_subgraph')
+            if ok_rec:
+                # the arguments of the spawned coroutine by parameter name, however the call spells them
+                rc = REGISTRY.get(r0.coro.fn.key) if hasattr(r0.coro, 'fn') and hasattr(r0.coro.fn, 'key') else None
+                if rc is None:
+                    raise Unsupported('the spawned coroutine has no contract to bind its arguments with')
+                ra = rc.bind(it, r0.coro.fn, r0.coro.self_val, CallArgs(r0.coro.args, r0.coro.kwargs, r0.coro.starmaps))
+                ok_rec = z3.And(T(ra.node_id, st) == n, T(ra.node_result, st) == res) if (ra.dag is a.dag) else False
+            out.append(('re-iteration-is-_run_recurrent_subgraph-for-this-node-and-result|C11', ok_rec))
             out.append(('re-iteration-spawned-through-the-task-registry|C13', len(calls(effects, '_create_task')) == 1))
         # ---- C19: the save site -------------------------------------------------------
         if saves:
